@@ -74,6 +74,7 @@ type Frame struct {
 	callOrd  map[ssa.Instruction]int
 	callName map[ssa.Instruction]string
 	sendOrd  map[ssa.Instruction]int
+	recvOrd  map[ssa.Instruction]int
 	retOrd   map[ssa.Instruction]int
 	curBlock *ssa.BasicBlock
 	curInstr ssa.Instruction
@@ -142,7 +143,7 @@ func (fr *Frame) computeOrder() {
 		in   ssa.Instruction
 		name string
 	}
-	var calls, sends, rets []site
+	var calls, sends, rets, recvs []site
 	for _, b := range fr.order {
 		for _, in := range b.Instrs {
 			switch x := in.(type) {
@@ -154,6 +155,10 @@ func (fr *Frame) computeOrder() {
 				calls = append(calls, site{in, calleeName(&x.Call)})
 			case *ssa.Send:
 				sends = append(sends, site{in, "send"})
+			case *ssa.UnOp:
+				if x.Op == token.ARROW {
+					recvs = append(recvs, site{in, "recv"})
+				}
 			case *ssa.Return:
 				rets = append(rets, site{in, "return"})
 			}
@@ -165,6 +170,11 @@ func (fr *Frame) computeOrder() {
 	byPos(calls)
 	byPos(sends)
 	byPos(rets)
+	byPos(recvs)
+	fr.recvOrd = map[ssa.Instruction]int{}
+	for i, r := range recvs {
+		fr.recvOrd[r.in] = i
+	}
 	fr.callOrd = map[ssa.Instruction]int{}
 	fr.callName = map[ssa.Instruction]string{}
 	cnt := map[string]int{}
